@@ -416,8 +416,11 @@ def cold_calls(v, level=2):
         from .. import treeinv
         leaf = core.SubComponent(datatype='ST', version=v)
         leaf.value = 'k|l~m^n&o#p\\q'     # text holding every delimiter: encoded with the version's default set
+        # the same date, time and number that call B converts: two messages of two threads carrying the same timestamp
+        same = [[type(o).__name__, o.to_er7()] for o in (datatype_factory(dt, val, v, 1) for dt, val in
+                                                         (('DT', '20200101'), ('TM', '1200'), ('NM', '12.5')))]
         return [s.to_er7(), [str(e) for e in s.validate(return_errors=True).errors],
-                [[e.__dict__.get('name'), e.__dict__.get('_datatype')] for e in treeinv.walk(s)], leaf.to_er7()]
+                [[e.__dict__.get('name'), e.__dict__.get('_datatype')] for e in treeinv.walk(s)], leaf.to_er7(), same]
 
     def B():
         out = []
@@ -431,6 +434,38 @@ def cold_calls(v, level=2):
         out.append(leaf.to_er7())
         return out
     return A, B
+
+
+def aftermath(v):
+    """run sequentially in a process AFTER its concurrent calls: 300 further distinct dates, times, timestamps and numbers,
+    and a leaf holding every delimiter under five delimiter sets.  Each value is valid, so it is accepted under STRICT and
+    encodes to itself; the list of those that are not is what the call returns (empty in a process that ran nothing
+    concurrently) - damage that concurrent calls left behind in process-wide state shows here, however late it surfaces."""
+    from hl7apy import core
+    from hl7apy.factories import datatype_factory
+    bad = []
+    vals = []
+    for k in range(300):
+        d = '%04d%02d%02d' % (1900 + k % 150, 1 + k % 12, 1 + k % 28)
+        t = '%02d%02d%02d' % (k % 24, (7 * k) % 60, (11 * k) % 60)
+        vals += [('DT', d), ('TM', t), ('DTM', d + t), ('TM', t + '.%d' % (k + 1)), ('NM', '%d.%d' % (k, k + 1)),
+                 ('SI', str(k))]
+    for dt, val in vals:
+        try:
+            o = datatype_factory(dt, val, v, 1)
+            if o.to_er7() != val:
+                bad.append([dt, val, o.to_er7()])
+        except Exception as e:
+            bad.append([dt, val, type(e).__name__])
+    for n, esc in enumerate('\\$@%!'):
+        ec = {'FIELD': '|', 'COMPONENT': '^', 'SUBCOMPONENT': '&', 'REPETITION': '~', 'ESCAPE': esc, 'SEGMENT': '\r',
+              'GROUP': '\r'}
+        leaf = core.SubComponent(datatype='ST', version=v)
+        leaf.value = 'a|b~c^d&e' + esc + 'f'
+        want = 'a{0}F{0}b{0}R{0}c{0}S{0}d{0}T{0}e{0}E{0}f'.format(esc)
+        if leaf.to_er7(encoding_chars=ec) != want:
+            bad.append(['ST', esc, leaf.to_er7(encoding_chars=ec)])
+    return [len(vals) + 5, bad[:5]]
 
 
 def override_call(v):
@@ -500,7 +535,8 @@ def cold_main(argv):
                     'trace': [list(t) for t in bt.trace], 'anchor_events': bt.acount,
                     'distinct_anchor_locations': len(bt.first_seen[0]),
                     'blocked': bt.blocked, 'hung': hung, 'was_loaded': loaded})
-    json.dump({'schedules': res, 'first_text_assignments': first}, open(argv[1], 'w'))
+    after = None if spec.get('first_only') else outcome(lambda: aftermath(spec['versions'][-1]))
+    json.dump({'schedules': res, 'first_text_assignments': first, 'aftermath': after}, open(argv[1], 'w'))
     return 0
 
 
@@ -553,6 +589,15 @@ def run_cold(spec, rec):
             payload = json.load(open(op))
             f0 = payload.get('first_text_assignments')
             judge_first(f0, rec, {'kind': 'cold', 'version': order[0], kind_: j, 'order': order}, traces)
+            if payload.get('aftermath') is not None:
+                # the sequential battery that ran in that process after its schedules, against the same battery run here
+                want_after = json.loads(json.dumps(outcome(lambda: aftermath(order[-1]))))
+                rec.count('aftermath_batteries_compared')
+                rec.evaluation(('cold-aftermath', kind_, j))
+                if payload['aftermath'] != want_after:
+                    rec.violation('sequential-calls-after-concurrent-ones-differ:cold-start',
+                                  {'kind': 'cold', 'version': order[-1], kind_: j, 'order': order},
+                                  {'sequential': str(want_after)[:250], 'after_concurrent_calls': str(payload['aftermath'])[:250]})
             for r in payload['schedules']:
                 v = r['version']
                 switched = len(r['trace']) > 0
